@@ -42,8 +42,10 @@ type metadataProviderFile struct {
 
 func NewMetadataProviderFile(path string) Provider {
 	return &metadataProviderFile{
-		path:     path,
-		fileLock: fslock.New(path),
+		path: path,
+		// The status file is replaced (renamed over) on every Store, so the
+		// lock must live on a file that is never replaced.
+		fileLock: fslock.New(path + ".lock"),
 	}
 }
 
@@ -115,9 +117,57 @@ func (m *metadataProviderFile) Store(cs *model.ClusterStatus, expectedVersion Ve
 		return "", err
 	}
 
-	if err := os.WriteFile(m.path, newContent, 0600); err != nil {
+	if err := writeFileAtomic(m.path, newContent, 0600); err != nil {
 		return NotExists, err
 	}
 
 	return newVersion, nil
+}
+
+// writeFileAtomic replaces the content of the file at path in a way that a
+// crash, or a failed write, at any point leaves either the complete old or the
+// complete new content in place: the data is written to a temporary file in
+// the same directory, flushed to disk and then renamed over the target.
+// (os.WriteFile truncates the target first: an interruption right after that
+// leaves an empty file, which Get() reports as a non-existing status.)
+func writeFileAtomic(path string, data []byte, perm os.FileMode) error {
+	dir := filepath.Dir(path)
+	tmp, err := os.CreateTemp(dir, filepath.Base(path)+".tmp-*")
+	if err != nil {
+		return err
+	}
+	tmpName := tmp.Name()
+	renamed := false
+	defer func() {
+		if !renamed {
+			_ = os.Remove(tmpName)
+		}
+	}()
+
+	if _, err = tmp.Write(data); err != nil {
+		_ = tmp.Close()
+		return err
+	}
+	if err = tmp.Chmod(perm); err != nil {
+		_ = tmp.Close()
+		return err
+	}
+	if err = tmp.Sync(); err != nil {
+		_ = tmp.Close()
+		return err
+	}
+	if err = tmp.Close(); err != nil {
+		return err
+	}
+	if err = os.Rename(tmpName, path); err != nil {
+		return err
+	}
+	renamed = true
+
+	// Make the rename itself durable
+	if d, err := os.Open(dir); err == nil {
+		_ = d.Sync()
+		_ = d.Close()
+	}
+	return nil
 }
